@@ -52,7 +52,9 @@ def gen(seed):
         if r < 0.3:
             faults.append([round(rng.uniform(0, t + 0.5), 4), "silent", b])
         elif r < 0.45:
-            faults.append([round(rng.uniform(0, t + 0.5), 4), "stop", b])
+            # (half of the refused connections are refused synchronously: the endpoint's Deferred has already failed
+            # when it is returned)
+            faults.append([round(rng.uniform(0, t + 0.5), 4), rng.choice(("stop", "stop_sync")), b])
         elif r < 0.55:
             faults.append([round(rng.uniform(0, t + 0.5), 4), "slow", b])
     refresh_removes = rng.random() < 0.25 and nb >= 2
@@ -74,7 +76,8 @@ def gen(seed):
             links.append([j, rng.randrange(0, j)])
         if rng.random() < 0.5 and brokers:
             # ... with the requests still queued on a broker client that cannot connect
-            faults = [f for f in faults if f[1] != "stop"] + [[0.0, "stop", rng.choice(brokers)]]
+            faults = [f for f in faults if f[1] not in ("stop", "stop_sync")] + \
+                [[0.0, rng.choice(("stop", "stop_sync")), rng.choice(brokers)]]
     return dict(seed=seed, brokers=brokers, topics=topics, boot=boot, ops=ops, faults=faults, links=links,
                 refresh_removes=refresh_removes, double_refresh=double_refresh, cold=rng.random() < 0.5, latency=rng.choice((0.0, 0.002, 0.02)),
                 timeout=rng.choice((0.5, 2.0)), close_from_callback=rng.random() < 0.2, horizon=t + 3.0)
@@ -241,6 +244,14 @@ def run_once(sc, close_step=None):
                 return None
             d.addBoth(fired)
         first = True
+        sync_refused = set()
+        prev_policy = w.net.connect_policy
+
+        def policy(host, port, n):
+            if (host, port) in sync_refused:
+                return ("refuse_sync", None)
+            return prev_policy(host, port, n) if prev_policy is not None else None
+        w.net.connect_policy = policy
         for (t, kind, arg) in sc["ops"]:
             def go(kind=kind, arg=arg):
                 launch(kind, arg)
@@ -251,6 +262,11 @@ def run_once(sc, close_step=None):
                                  dict(broker=b, action=dict(kind="silent", apply=False)))
             elif what == "stop":
                 w.clock.labelled(base - w.clock.seconds() + t, "fault.stop", cl.stop_broker, b)
+            elif what == "stop_sync":
+                def stop_sync(b=b):
+                    cl.stop_broker(b)
+                    sync_refused.add((cl.brokers[b].host, cl.brokers[b].port))
+                w.clock.labelled(base - w.clock.seconds() + t, "fault.stop", stop_sync)
             else:
                 w.clock.labelled(base - w.clock.seconds() + t, "fault.slow", cl.faults.add,
                                  dict(broker=b, action=dict(kind="ok", delay=0.4)))
